@@ -100,6 +100,17 @@ Example C21_pointer_nonvacuous : exists st, exec (new_state 3 50) (firstn 6 demo
   index st = [(0, (0, 2)); (1, (1, 1))] /\ nexti st = 2.
 Proof. exact demo_wf. Qed.
 
+(* Head appender entry points (tsdb/head_append.go AppendExemplar + Commit, tsdb/head_append_v2.go
+   Append with AOptions.Exemplars + Commit): exemplars are normalised with [without_empty] (labels with
+   an empty value are dropped before validation: they do not count towards the 128-rune limit, do not
+   distinguish a duplicate and are not stored), validated against the store before the commit
+   (duplicates swallowed, other errors reported), then added in order. Histories mixing these entry
+   points with all direct operations on the ring return exactly what the reference returns. *)
+Theorem C21_head_entry_refines_partial : forall l w ops,
+  int64 w -> Forall hop_int64 ops ->
+  r_hrun (r_new l w) ops = sp_hrun WIdeal (sp_new l w) ops.
+Proof. exact thm_head_entry_refines. Qed.
+
 (* non-vacuity: a history with out-of-order insertion, eviction, duplicates, shrink and grow (demo_ops in the proof file) *)
 Example C21_nonvacuous :
   Forall op_int64 demo_ops /\
